@@ -102,6 +102,8 @@ InvExactlyOneResponse  == AllFails \cap OneResp = {}
 InvOtherClauses == AllFails \ (Splitting \cup OneResp
                                \cup {"NoDroppedConnection"}) = {}
 
+InvAllClauses == AllFails = {}
+
 (* no request is stuck behind an earlier one                               *)
 InvNeverStuck == \A i \in DOMAIN conn : conn[i].st = "sent" => CanHandle
 
